@@ -95,6 +95,8 @@ _AUD = [
       thorough_params={"MLO": 50, "MHI": 58}),
     R("mpeg1audio-agg", "pkg/format/rtpmpeg1audio", "pkg/format/rtpmpeg1audio", ["ZzC03C06MPEG1Audio"], params={"N": 2, "P": 49, "MLO": 100, "MHI": 101},
       thorough_params={"MLO": 98, "MHI": 103}, tiers=("thorough",)),
+    R("mpeg1audio-batches", "pkg/format/rtpmpeg1audio", "pkg/format/rtpmpeg1audio", ["ZzC03C06MPEG1Audio"], params={"N": 3, "P": 53, "MLO": 97, "MHI": 98, "COV1": 0},
+      thorough_params={"MLO": 96, "MHI": 101}),  # a flush followed by a batch of two frames
     R("ac3-frag", "pkg/format/rtpac3", "pkg/format/rtpac3", ["ZzC03C06AC3"], params={"N": 1, "P": 140, "MLO": 36, "MHI": 37, "COV1": 0},
       thorough_params={"MLO": 20, "MHI": 44}),  # 36: a 128-byte frame is an exact multiple of the fragment size
     R("ac3-single", "pkg/format/rtpac3", "pkg/format/rtpac3", ["ZzC03C06AC3"], params={"N": 1, "P": 130, "MLO": 129, "MHI": 132},
@@ -201,7 +203,7 @@ PROPS["C08"]["runs"] += [
 # ---------------------------------------------------------------- root package kernels
 _EXTRAS = {"pkg/ringbuffer": "extra/ringbuffer", "internal/asyncprocessor": "extra/asyncprocessor"}
 PROPS["C17"] = {
-    "level_text": 'No cryptography. (1) Transport admission: isTransportSupported / pickFirstSupportedTransport agree with the reference rule (no secure profile without TLS, no plain UDP with TLS, no UDP through tunnels, multicast/UDP listener presence) for every combination of profile, protocol, delivery, TLS, listeners, multicast range and tunnel kind. (2) Key management: contextToMikey -> mikeyToContext on the real code: master key and salt (30 symbolic bytes), MKI present/absent, 1..3 distinct SSRCs of which any prefix carries roll-over state: key, MKI, SSRC order and roll-over counters arrive unchanged, an SSRC without state is announced with counter 0.',
+    "level_text": 'No cryptography. (1) Transport admission: isTransportSupported / pickFirstSupportedTransport agree with the reference rule (no secure profile without TLS, no plain UDP with TLS, no UDP through tunnels, multicast/UDP listener presence) for every combination of profile, protocol, delivery, TLS, listeners, multicast range and tunnel kind. (2) Key management: contextToMikey -> mikeyToContext on the real code: master key and salt (30 symbolic bytes), MKI present/absent, 1..3 distinct SSRCs of which any prefix carries roll-over state: key, MKI, SSRC order and roll-over counters arrive unchanged, an SSRC without state is announced with counter 0; a message whose security policy deviates in ONE of the six mandatory parameters (missing, or any other value) is refused by mikeyToContext.',
     "level_note": 'Trusted: pion/srtp Context reduced to its SetROC/ROC table (cipher and HMAC not modelled), ntp.Encode/Decode replaced by the inverse-pair contract proved under C15, consecutive clock readings at most 60 s apart. Outside: all cryptography (AES-CM/HMAC: decrypt = inverse of encrypt, tamper rejection, no clear text on the wire), redirect downgrade check, which contexts the session plumbing hands to which writer.',
     "runs": [R("admission", ".", "root", ["ZzC17Admission"], params={"GOSTUB": 1}, extras=_EXTRAS),
              R("mikey-context", ".", "root", ["ZzC17MikeyContext"], params={"GOSTUB": 1, "NTPSTUB": 1, "NOWDRIFT": 60}, extras=_EXTRAS,
@@ -356,6 +358,12 @@ PROPS["C15"] = {
           flags={"solver": "cvc5-int", "workers": 2, "qtimeout": 120000},
           tiers=("quick", "thorough") if (a, b) == (90000, 48000) else ("thorough",))
         for (a, b) in [(90000, 48000), (48000, 90000), (90000, 8000), (44100, 90000)]
+    ] + [
+        # with a packet of the leading track whose PTS differs from its DTS in between: it must not become the reference point
+        R("latertrack-bframe-%d-%d" % (a, b), "pkg/rtptime", "pkg/rtptime", ["ZzC15LaterTrack"], params={"R1": a, "R2": b, "BFRAME": 1},
+          flags={"solver": "cvc5-int", "workers": 2, "qtimeout": 120000},
+          tiers=("quick", "thorough") if (a, b) == (90000, 48000) else ("thorough",))
+        for (a, b) in [(90000, 48000), (90000, 8000)]
     ] + [
         R("sender-report", "pkg/rtpsender", "pkg/rtpsender", ["ZzC15SenderReport"], quick_params={"K": 3}, thorough_params={"K": 5}),
         R("ntp-roundtrip", "pkg/ntp", "pkg/ntp", ["ZzC15NTPRoundTrip"], flags={"solver": "cvc5-int", "fpreal": True, "workers": 2, "qtimeout": 300000}),
